@@ -1259,8 +1259,31 @@ def remove_duplicate_functions(source: str, preserve: Collection[str]) -> str:
     root = core.parse(source)
     function_defs = collections.defaultdict(set)
 
+    # Names that something else binds as well (a parameter, an assignment, another definition or
+    # an import of the same name): their uses cannot all be redirected to the surviving duplicate
+    bindings = collections.Counter(node.id for node in core.walk(root, ast.Name(ctx=ast.Store)))
+    bindings.update(node.arg for node in core.walk(root, ast.arg))
+    bindings.update(
+        node.name
+        for node in core.walk(root, (ast.FunctionDef, ast.AsyncFunctionDef, ast.ClassDef))
+    )
+    bindings.update(
+        alias.asname or alias.name.split(".")[0]
+        for node in core.walk(root, (ast.Import, ast.ImportFrom))
+        for alias in node.names
+    )
+    bindings.update(node.name for node in core.walk(root, ast.ExceptHandler) if node.name)
+
     for node in core.filter_nodes(root.body, ast.FunctionDef):
-        function_defs[abstractions.hash_node(node, preserve)].add(node)
+        if bindings[node.name] > 1:
+            continue
+        # Two functions are the same up to the names they bind themselves, not up to the names
+        # they take from outside (print and len are different functions)
+        local_names = {node.name}
+        local_names |= {arg.arg for arg in core.walk(node, ast.arg)}
+        local_names |= {name.id for name in core.walk(node, ast.Name(ctx=ast.Store))}
+        free_names = {name.id for name in core.walk(node, ast.Name)} - local_names
+        function_defs[abstractions.hash_node(node, set(preserve) | free_names)].add(node)
 
     delete = set()
     renamings = {}
